@@ -74,7 +74,9 @@ class ModbusAsciiFramer(ModbusFramer):
             self._header['len'] = end
             try:
                 self._header['uid'] = int(self._buffer[1:3], 16)
-                self._header['lrc'] = int(self._buffer[end - 2:end], 16)
+                # exactly two hex digits (int() would also accept '+F' or ' F')
+                lrc = a2b_hex(self._buffer[end - 2:end])
+                self._header['lrc'] = int(b2a_hex(lrc), 16)
                 data = a2b_hex(self._buffer[start + 1:end - 2])
             except ValueError:
                 return False
